@@ -145,6 +145,35 @@ Theorem C03_port_clear_repr : forall u file, scheme u <> [] -> is_some (uhost u)
   s_r (run true (init_sst (repr_of u) file) [OClearPart P_PORT]) = repr_of (set_port u None).
 Proof. exact port_clear_repr. Qed.
 
+(* pathname setter.  What path_start_state / path_state do with state override is a sequence of "append a segment"
+   (start_path_segment, text, save_path_segment), "append the empty segment" and "shorten" (a ".." segment) followed by
+   commit_path.  [pinterp] is the Standard's reading of such a sequence on the segment list ([shorten_segs] = "shorten
+   a url's path", with the file-scheme drive-letter exception).  For EVERY such sequence: strp_ / path_seg_end_ follow
+   the segment list, commit_path fills the offsets up to PATH, splices the path in, sets the segment counter and
+   inserts or removes the "/." prefix - the result is the representation of the piece list with pieces PATH_PREFIX and
+   PATH replaced, and at record level the representation of the record with the new path *)
+Theorem C03_pathname_pieces : forall ps n f c file l,
+  PW ps n -> (nth P_PATH_PREFIX ps [] = [] \/ nth P_PATH_PREFIX ps [] = [47; 46]) ->
+  let segs := fold_left (pinterp file) l [] in
+  s_r (run true (init_sst (conc ps n f c) file) (flat_map cops l ++ [OCommitPath])) =
+  conc (setp (setp ps P_PATH (pstr segs)) P_PATH_PREFIX (new_prefix f segs)) (Nat.max n 9) f (N.of_nat (length segs)).
+Proof. exact pathname_conc. Qed.
+
+Theorem C03_pathname_setter_repr : forall u file l, scheme u <> [] -> has_opaque_path u = false ->
+  let segs := fold_left (pinterp file) l [] in
+  no_lead_slash segs ->
+  s_r (run true (init_sst (repr_of u) file) (flat_map cops l ++ [OCommitPath])) = repr_of (set_path u (PList segs)).
+Proof. exact pathname_setter_repr. Qed.
+
+(* pathname "/a/../b/" on non-spec:/x (null host): segments b, "" ; pathname "//x" on the same URL gets the "/." prefix *)
+Example C03_pathname_example :
+  let u := mkurl (lit "non-spec") [] [] None None (PList [lit "x"]) None None in
+  scheme u <> [] /\ has_opaque_path u = false /\
+  r_norm (s_r (run true (init_sst (repr_of u) false) (flat_map cops [PPush (lit "a"); PShorten; PPush (lit "b"); PEmpty] ++ [OCommitPath])))
+    = lit "non-spec:/b/" /\
+  r_norm (s_r (run true (init_sst (repr_of u) false) (flat_map cops [PEmpty; PPush (lit "x")] ++ [OCommitPath]))) = lit "non-spec:/.//x".
+Proof. cbv zeta. repeat split; try discriminate; vm_compute; reflexivity. Qed.
+
 (* non-vacuity of the record-level premises, and the theorems evaluated on http://h/p: username "u", then hash "f" *)
 Example C03_record_example :
   let u := mkurl (lit "http") [] [] (Some (HDomain (lit "h"))) None (PList [lit "p"]) None None in
@@ -185,5 +214,8 @@ Print Assumptions C03_setter_protocol_pieces.
 Print Assumptions C03_hash_clear_repr.
 Print Assumptions C03_search_clear_repr.
 Print Assumptions C03_port_clear_repr.
+Print Assumptions C03_pathname_pieces.
+Print Assumptions C03_pathname_setter_repr.
+Print Assumptions C03_pathname_example.
 Print Assumptions C03_record_example.
 Print Assumptions C03_pieces_example.
